@@ -128,6 +128,12 @@ func c19Civil(w *W, y int) {
 			if s.String() != str {
 				w.Violatef("civil-format", fmt.Sprintf("%d-%d-%d/string", y, m, d), "String()=%q differs from ToYmd()=%q", s.String(), str)
 			}
+			// the long form at a rotating time of day (every day of every year)
+			hh, mi, ss := (d*7+m)%24, (d*13+y)%60, (d*29+m*3)%60
+			long := calendar.NewSolar(y, m, d, hh, mi, ss).ToYmdHms()
+			if want := fmt.Sprintf("%s %02d:%02d:%02d", ymd(y, m, d), hh, mi, ss); long != want || len(long) != 19 {
+				w.Violatef("stamp-format", fmt.Sprintf("%d-%d-%d/long", y, m, d), "ToYmdHms of %s %02d:%02d:%02d is %q", ymd(y, m, d), hh, mi, ss, long)
+			}
 			if prev != "" && !(prev < str) {
 				w.Violatef("civil-order", fmt.Sprintf("%d-%d-%d", y, m, d), "%q does not sort after the previous day's %q", str, prev)
 			}
@@ -178,13 +184,15 @@ func c19LunarDay(w *W, cy, cm, cd int) {
 	}
 	chk("Lunar.String", l.String(), y)
 	chk("year/month/day renderings", l.GetYearInChinese()+"年"+l.GetMonthInChinese()+"月"+l.GetDayInChinese(), y)
+	// the Taoist / Buddhist year must be the lunar year plus its fixed offset (the law C17 establishes), not merely what
+	// the object's own GetYear() says: otherwise two dates could print alike while each still "parses back to itself"
 	t, f := l.GetTao(), l.GetFoto()
-	chk("Tao.ToString", t.ToString(), t.GetYear())
-	chk("Tao.String", t.String(), t.GetYear())
-	chk("Foto.ToString", f.ToString(), f.GetYear())
-	chk("Foto.String", f.String(), f.GetYear())
-	chk("Tao renderings", t.GetYearInChinese()+"年"+t.GetMonthInChinese()+"月"+t.GetDayInChinese(), t.GetYear())
-	chk("Foto renderings", f.GetYearInChinese()+"年"+f.GetMonthInChinese()+"月"+f.GetDayInChinese(), f.GetYear())
+	chk("Tao.ToString", t.ToString(), y+2697)
+	chk("Tao.String", t.String(), y+2697)
+	chk("Foto.ToString", f.ToString(), y+544)
+	chk("Foto.String", f.String(), y+544)
+	chk("Tao renderings", t.GetYearInChinese()+"年"+t.GetMonthInChinese()+"月"+t.GetDayInChinese(), y+2697)
+	chk("Foto renderings", f.GetYearInChinese()+"年"+f.GetMonthInChinese()+"月"+f.GetDayInChinese(), y+544)
 	if d == 1 || cd == 1 {
 		if mn := calendar.NewLunarMonthFromYm(y, m); mn != nil {
 			// "<y>年[闰]<month>月(<n>)天"
